@@ -33,6 +33,14 @@ CHECKS = {
    text="Seeded search over 1-4 concurrent callers of the real Network::get_record_from_network for one key (own quorum / expected record each) and a stream of kad progress events fed to the real SwarmDriver handlers in seeded order: FoundRecord from up to 8 peers holding up to 4 versions (opaque, registers incl. unverifiable, transaction sets, scratchpads valid/unsigned/forged, mixed kinds), duplicates, changed answers, late callers, and every terminal event. Each caller's outcome is judged against its own quorum and target: Ok needs >= Q distinct peers with byte-identical content matching the target, or the reference merge of the delivered versions; every caller gets exactly one outcome and no query entry survives its terminal event.",
    note="Trusted: the simulator plays libp2p's kad query engine by emitting the kad::Event values the engine emits; caller cancellation not injected; back-off retries only with a single caller (unseeded jitter).",
    technique="deterministic simulation: synthetic kad progress events in seeded order against the real accumulation handlers, per-caller quorum/merge oracle"),
+ "C14": dict(sim="client", level="exploration", ref="5 C14",
+   text="Seeded search over inputs drawn around the self-encryption size-class boundaries (0..2 bytes, 3, k*MAX_CHUNK_SIZE +/- 1, random; random and repetitive content): the real encrypt() is run twice (chunk size, content addressing by an independent sha3-256, determinism), then the real Client::data_get_public reads the data back while the simulator completes the chunk queries in seeded order with duplicated replies; in mode fault one chunk query is answered not-found / timeout and the read must fail. Two builds are run: default (1 MiB chunks) and MAX_CHUNK_SIZE=4096, where inputs of a few hundred KiB need several data-map levels.",
+   note="Trusted: the simulator plays the holders and the kad query engine; MAX_CHUNK_SIZE is compile-time (two builds); CHUNK_DOWNLOAD_BATCH_SIZE fixed to 3; upload/payment paths not exercised.",
+   technique="deterministic simulation: seeded completion order and failure of chunk fetches against the real client read path, round-trip oracle"),
+ "C15": dict(sim="client", level="exploration", ref="5 C15",
+   text="Seeded search over client reads (chunk_get, data_get_public, fetch_and_decrypt_vault) against byzantine holders: one query answered with another valid chunk, a foreign chunk, the right bytes under the wrong kind or undecodable bytes; vault reads answered with seeded sets of scratchpads (valid with chosen counters, unsigned, signed by another key, inflated counter, another owner's) from up to 8 peers and any terminal event. Ok must hash to the requested address / equal the original data; a vault Ok must be the owner's validly signed pad with the highest counter delivered, else Err.",
+   note="Trusted: as C14.",
+   technique="deterministic simulation: byzantine holder replies against the real client read path, authenticity oracle"),
 }
 
 NOT_APPLICABLE = {
